@@ -334,7 +334,10 @@ impl Package {
 
                 // Check if the export name is an interface name
                 let (export_name, kind) = world.exports.get_index(0).unwrap();
-                match ComponentName::new(export_name, 0).unwrap().kind() {
+                let Ok(export_name) = ComponentName::new(export_name, 0) else {
+                    continue;
+                };
+                match export_name.kind() {
                     ComponentNameKind::Interface(_) => {}
                     _ => continue,
                 }
